@@ -40,6 +40,7 @@ def cases(draw):
     s["cellmass_opt"] = draw(st.one_of(st.none(), st.floats(5.0, 900.0)))
     s["pfrac"] = [draw(st.floats(0.12, 0.4)), draw(st.floats(0.15, 0.45))]
     s["sample"] = draw(st.sampled_from([None, None, 2, 3]))
+    s["static_rows"] = draw(st.sampled_from(["as-is", "as-is", "reversed", "shuffled"]))     # the table has its own volume column
     return s
 
 
@@ -81,7 +82,12 @@ def oracle(ctx, s):
         f1 = os.path.join(wd, "input01")
         f2 = os.path.join(wd, "input02")
         write_input01(f1, ds)
-        write_input02(f2, ds)
+        row_order = None
+        if s.get("static_rows") == "reversed":
+            row_order = list(range(ds.nv_static))[::-1]
+        elif s.get("static_rows") == "shuffled":
+            row_order = [int(x) for x in np.random.default_rng(s["seed"] ^ 0x99).permutation(ds.nv_static)]
+        write_input02(f2, ds, row_order=row_order)
         argv = [f1] + ([f2] if s["with_table"] else []) + ["-I", mode, "-n", str(n), "--v-ratio", repr(ratio)] + args
         if system:
             argv += ["-s", system]
@@ -231,7 +237,7 @@ def sub_static(ctx):
             return
         nt = s["mode"] != "none" and s["with_table"] and info["noncubic"]
         ctx.case(s, nt, classes=["mode-" + s["mode"], "table" if s["with_table"] else "no-table", "n=%d" % s["n"],
-                                  "system-" + (s["system"] if s["apply_system"] else "none")])
+                                  "system-" + (s["system"] if s["apply_system"] else "none"), "static-rows-" + s.get("static_rows", "as-is")])
 
     ctx.run_given(body, cases(), max_examples=ctx.n(400, 8000))
 
